@@ -6,7 +6,7 @@ CONSTANTS
   Kinds = {"single"}
   MaxCredit = 3
   MaxTick = 2
-  NP = 1
+  NP = 2
   Limit = 1
   MaxFail = 1
   MaxAbort = 1
